@@ -135,6 +135,33 @@ impl Prop for C02T {
     }
     fn generate(&self, seed: u64, _thorough: bool) -> Scenario {
         let mut rng = Rng::new(seed);
+        if rng.chance(1, 20) {
+            // "Every message terminator resets the path" also after process had to discard
+            // a message that does not fit its buffer: units of that message ran and moved the
+            // path, its tail overflowed, and what follows the discarded bytes is a message
+            // of its own (hand-written tree t0; raw stream, not an AST).
+            let iface = 0;
+            let ns: Vec<usize> = IFACES[iface].ns.iter().copied().filter(|&n| (16..=64).contains(&n)).collect();
+            let (first, fin) = *rng.pick(&[("SYST:FOO", "BAR"), ("SYST:SUB:FOO", "BAR"), ("SYST:SUB:FOO", "FOO"), ("SYSTEM:SUB:BAR", "BAR"), ("SYSTEM:BAR", "FOO")]);
+            // the first unit and the carrier up to its payload newline must fit the buffer
+            let ns: Vec<usize> = ns.into_iter().filter(|&n| n >= first.len() + 1 + 7).collect();
+            let n = *rng.pick(&ns);
+            let mut carrier = b"STR \"a\n".to_vec();
+            while carrier.len() < n {
+                carrier.push(*rng.pick(b"pq ;,"));
+            }
+            let mut stream = first.as_bytes().to_vec();
+            stream.push(b';');
+            stream.extend_from_slice(&carrier);
+            stream.extend_from_slice(fin.as_bytes());
+            stream.push(b'\n');
+            let mut sc = Scenario { prop: "C02".into(), seed, iface, cap: 0, n, stream, ..Default::default() };
+            sc.set("overflow_relative", fin.len() as i64);
+            let b = sc.stream.clone();
+            sc.scheds.push(gen::sched(&mut rng, &b));
+            sc.scheds.push(gen::sched(&mut rng, &b));
+            return sc;
+        }
         let (iface, cap) = pick_iface(&mut rng, &[Family::Tree]);
         let m = simcore::spec::model(iface);
         let k = rng.range(1, 6);
@@ -238,6 +265,47 @@ impl Prop for C02T {
         sc
     }
     fn check(&self, sc: &Scenario, st: &mut Stats) -> Verdict {
+        if let Some(fl) = sc.knob("overflow_relative") {
+            let stream = sc.bytes();
+            // well formed (also after the minimiser edited it): <unit>;STR "a\n<pad> is followed
+            // by the last message, and the carrier part is exactly N bytes long
+            let key: &[u8] = b";STR \"a\n";
+            let idx = stream.windows(key.len()).position(|w| w == key);
+            let ok = match idx {
+                Some(i) => stream.len() > i + 1 + fl as usize + 1 && stream.len() - (i + 1) - fl as usize - 1 == sc.n && i + key.len() <= sc.n && stream[i + key.len()..stream.len() - 1].iter().all(|b| *b != b'\n' && *b != b'"') && stream.ends_with(b"\n"),
+                None => false,
+            };
+            if !ok {
+                return Verdict::Skip("skip:scenario-not-well-formed");
+            }
+            // the last message alone, on a fresh interface
+            let last = stream[stream.len() - fl as usize - 1..].to_vec();
+            let ll = last.len();
+            let alone = exec(&run_exec(sc, last, vec![0, ll], Sink::Sim(None), vec![]), st);
+            if alone.unsupported || alone.crashed() || !alone.errors().is_empty() || alone.handlers().len() != 1 {
+                return Verdict::Skip("skip:rewritten-history-not-valid");
+            }
+            let want = alone.handlers()[0].0;
+            for i in 0..sc.scheds.len().max(1) {
+                let o = exec(&process_exec(sc, stream.clone(), i), st);
+                if o.crashed() {
+                    return Verdict::Skip("skip:crashed(C05)");
+                }
+                let hs = o.handlers();
+                // the first unit ran (it moved the path), the carrier never completed
+                if hs.is_empty() {
+                    return Verdict::Skip("skip:rewritten-history-not-valid");
+                }
+                if hs.last().map(|h| h.0) != Some(want) || hs.len() != 2 {
+                    return Verdict::Violation {
+                        class: "path-after-overflow".into(),
+                        detail: format!("after process (N={}) discarded a message that did not fit, the next message selected handler {:?}; alone on a fresh interface it selects {want}\n    {}\n    alone:{}", sc.n, hs.last().map(|h| h.0), brief(&o), brief(&alone)),
+                    };
+                }
+            }
+            st.bump("reach:message_after_overflow_discard");
+            return Verdict::Held { nontrivial: true, sig: scenario_sig(sc) };
+        }
         let total_units: usize = sc.msgs.iter().map(|m| m.units.len()).sum();
         if total_units == 0 {
             return Verdict::Skip("skip:no-units");
@@ -434,6 +502,6 @@ impl Prop for C02T {
         ]
     }
     fn probes(&self) -> Vec<&'static str> {
-        vec!["reach:relative_unit_below_root", "reach:unit_after_a_unit_that_failed_in_execution", "reach:relative_unit_in_message_with_payload_newline", "reach:blank_message", "reach:message_ending_in_semicolon", "reach:compared_through_process", "fired:suspension"]
+        vec!["reach:relative_unit_below_root", "reach:message_after_overflow_discard", "reach:unit_after_a_unit_that_failed_in_execution", "reach:relative_unit_in_message_with_payload_newline", "reach:blank_message", "reach:message_ending_in_semicolon", "reach:compared_through_process", "fired:suspension"]
     }
 }
